@@ -17,9 +17,9 @@ PROP = "C32"
 LEVEL = "model_checking"
 TECHNIQUE = "BMC from reset on the netlist of the real measurer against a queue / slot table of concrete start cycle numbers (z3 QF_BV); counterexamples replayed on amaranth.sim"
 BOUNDS = {
-    "quick": "FIFO / Wide (start/stop counts <= 2) / Tagged measurers, slots 2 (Wide also 3 -> rounded to 4), max_latency 7 and 3 (wrap-around of the epoch "
+    "quick": "FIFO / Wide (start/stop counts <= 2) / Tagged measurers, slots 2 (Wide also 3 -> rounded to 4), max_latency 7, 3 and 4 (power of two; wrap-around of the epoch "
              "counter inside the bound), ways 1..2, BMC 8 cycles, all start/stop call histories obeying the documented usage",
-    "thorough": "slots 1..4, max_latency in {2, 3, 5, 7}, ways 1..2 (3 for the FIFO kind), BMC 11 cycles; Wide start/stop counts (1,1) BMC 11, "
+    "thorough": "slots 1..4, max_latency in {2, 3, 4, 5, 7, 8}, ways 1..2 (3 for the FIFO kind), BMC 11 cycles; Wide start/stop counts (1,1) BMC 11, "
                 "(2,2), (2,1), (1,2) BMC 9 with 2 slots and BMC 7 with 3..4 slots (solver time grows ~4x per cycle there)",
 }
 OUTSIDE = ["latencies above max_latency (documented overflow): only the presence of the sample is checked, not its value",
@@ -45,10 +45,14 @@ def configs(tier, seed):
         out.append(dict(kind="fifo", slots=2, max_latency=3, ways=1, K=K))
         out.append(dict(kind="tagged", slots=3, max_latency=3, ways=1, K=K))
         out.append(dict(kind="wide", slots=2, max_latency=3, ways=1, start_count=1, stop_count=2, K=K))
+        # max_latency a power of two: a latency of exactly max_latency needs one more bit than max_latency - 1
+        out.append(dict(kind="fifo", slots=2, max_latency=4, ways=1, K=K))
+        out.append(dict(kind="tagged", slots=2, max_latency=4, ways=1, K=K))
+        out.append(dict(kind="wide", slots=2, max_latency=4, ways=1, start_count=1, stop_count=1, K=K))
     else:
         K = 11
         for slots in (1, 2, 3, 4):
-            for ml in (2, 3, 5, 7):
+            for ml in (2, 3, 4, 5, 7, 8):
                 for ways in (1, 2, 3):
                     if ways == 3 and (slots not in (2,) or ml != 7):
                         continue
@@ -58,7 +62,7 @@ def configs(tier, seed):
                         continue
                     out.append(dict(kind="tagged", slots=slots, max_latency=ml, ways=ways, K=K))
         for slots in (2, 3, 4):
-            for ml in (3, 7):
+            for ml in (3, 4, 7):
                 for sc, pc in ((1, 1), (2, 2), (2, 1), (1, 2)):
                     for ways in (1, 2):
                         if ways == 2 and (ml == 3 or slots == 3):
